@@ -84,6 +84,7 @@ def run_case(case, info):
     spec = SCENES[case["scene"]]
     nobs = case["nobs"]
     mode = case.get("mode", "anchor0")
+    C.concrete_trace(replay, {"kind": "c03", "scene": case["scene"], "nobs": nobs, "mode": mode, "env": {}}, f"C03|getBH_level2+rotate+move|{case['scene']}|concrete")
 
     def run():
         sc = L2.Scene(spec)
